@@ -136,7 +136,14 @@ func ruleAut(c *Ctx, want string) {
 		case "retaddr":
 			show = cat == "retaddr"
 		case "tape":
-			show = cat == "tape"
+			// also the end-of-tokens rows: accepting with open scopes leaves unmatched start words on the tape
+			endRow := false
+			for _, in := range g.ins {
+				if in < 0 {
+					endRow = true
+				}
+			}
+			show = cat == "tape" || endRow
 		case "nd":
 			show = isND
 		}
